@@ -164,11 +164,40 @@ def pattern_fragments(check: Check, repo) -> None:
         f = repo.func(rel, fn)
         for n in ast.walk(f):
             if isinstance(n, ast.Call) and isinstance(n.func, ast.Attribute) and n.func.attr in ("append", "extend") and ast.unparse(n.func.value) in ("multi_sensitive", "insensitive_parts", "parts_out"):
-                arg = n.args[0]
-                holes = [v.value for v in ast.walk(arg) if isinstance(v, ast.FormattedValue)] if isinstance(arg, ast.JoinedStr) else [arg]
-                ok = all(isinstance(h, ast.Call) and ast.unparse(h.func) == "re.escape" for h in holes)
+                ok = _safe_part(n.args[0], frozenset())
                 check.count("pattern_dynamic_parts")
                 check.oblige("PATTERN-FRAGMENT", f"{rel}::{fn}", "grammar-derived text reaches the pattern only through re.escape" if ok else f"grammar-derived text reaches the pattern unescaped: {ast.unparse(n)[:60]}", ok)
+
+
+def _letter_guards(test: ast.expr) -> frozenset:
+    """Names the test establishes to be ASCII letters (x.isascii() and x.isalpha() as conjuncts)."""
+    conj = test.values if isinstance(test, ast.BoolOp) and isinstance(test.op, ast.And) else [test]
+    calls: dict[str, set] = {}
+    for c in conj:
+        if isinstance(c, ast.Call) and isinstance(c.func, ast.Attribute) and isinstance(c.func.value, ast.Name) and not c.args:
+            calls.setdefault(c.func.value.id, set()).add(c.func.attr)
+    return frozenset(n for n, m in calls.items() if {"isascii", "isalpha"} <= m)
+
+
+def _safe_part(e: ast.expr, letters: frozenset) -> bool:
+    """A piece of pattern text is harmless if it is a constant, re.escape(...) of anything, or - under a guard that
+    makes the value an ASCII letter - the value itself or its case mapping (letters need no escaping, inside or
+    outside a class)."""
+    if isinstance(e, ast.Constant) and isinstance(e.value, str):
+        return True
+    if isinstance(e, ast.Call) and ast.unparse(e.func) in ("re.escape", "regex.escape"):
+        return True
+    if isinstance(e, ast.Name) and e.id in letters:
+        return True
+    if isinstance(e, ast.Call) and isinstance(e.func, ast.Attribute) and e.func.attr in ("lower", "upper") and isinstance(e.func.value, ast.Name) and e.func.value.id in letters and not e.args:
+        return True
+    if isinstance(e, ast.JoinedStr):
+        return all(_safe_part(v.value, letters) for v in e.values if isinstance(v, ast.FormattedValue))
+    if isinstance(e, ast.IfExp):
+        return _safe_part(e.body, letters | _letter_guards(e.test)) and _safe_part(e.orelse, letters)
+    if isinstance(e, ast.Call) and isinstance(e.func, ast.Attribute) and e.func.attr == "join" and isinstance(e.func.value, ast.Constant) and len(e.args) == 1 and isinstance(e.args[0], (ast.GeneratorExp, ast.ListComp)):
+        return _safe_part(e.args[0].elt, letters)
+    return False
 
 
 def seeding(check: Check, repo) -> None:
